@@ -1,7 +1,24 @@
+import hashlib as _hl17, os as _os17
+
+_verif17 = _os17.path.dirname(_os17.path.dirname(_os17.path.dirname(_os17.path.abspath(__file__))))
+
+
+def _tools_digest17():
+    # the harness compiles $GV_REPO/tools/IntersectTool.cpp and GeodesicProj.cpp into itself: the harness cache key must depend on their text
+    h = _hl17.sha256()
+    for f in ("IntersectTool.cpp", "GeodesicProj.cpp"):
+        try:
+            h.update(open(_os17.path.join(_os17.environ.get("GV_REPO", "/repo"), "tools", f), "rb").read())
+        except OSError:
+            h.update(b"missing:" + f.encode())
+    return h.hexdigest()[:16]
+
+
 PROPS["C17"] = dict(
     harnesses=[dict(name="C17", procs_quick=4, procs_thorough=16, timeout=3000,
+                    extra=["-I" + _os17.path.join(_verif17, "harness", "C17_tools"), "-DGV_TOOLS_DIGEST=0x" + _tools_digest17()],
                     env={"ASAN_OPTIONS": "detect_leaks=0:abort_on_error=0:allocator_may_return_null=1"})],
-    gens=[],
+    gens=["gen_intersect"],
     rule=("NearestNeighbor (dist_t = long long, exact): point sets of size 0…2000 from five metrics — L1 on a 9×9 grid (duplicates, ties), L1 on a 1000² grid, "
           "collinear points (triangle equality everywhere), Chebyshev on a 40² grid, GeodesicExact distance in mm rounded up (lat/lon on a ¼° lattice incl. poles and a "
           "dense cluster) — bucket sizes 0…10, query = a set member or a random point, k ∈ {−1, 0, 1, 2, 3, 5, 9, n, n+2}, maxdist ∈ {max, 0, 5 %…100 % of the diameter}, "
@@ -13,7 +30,13 @@ PROPS["C17"] = dict(
           "meridian, |dlon| = 90 / 180 / > 90, longitude wrap. Intersect: f ∈ {WGS84, 0, ±0.015} (+ exact back end for ±1/50); generic lines, intersection at the origin, "
           "nearly parallel (1e-9…1e-3°), coincident parallel / antiparallel with equal and displaced start points, meridians / lines through poles, equatorial lines, "
           "overlapping coincident segments, offsets p0 zero and non-zero, radii D1 < D2 up to 1.2 circumferences; helper functions on integer, half-circumference and "
-          "random arguments. non-trivial = the model / oracle took a non-error path; distinct = distinct (op, leading arguments)"),
+          "random arguments. Intersect search model (ops ixs_*): the same line / ellipsoid / segment strata, every query with the table of Basic values on the 3×3 (Closest, Segment + the "
+          "4 corners), 5×5 (Next) or the m2 tile (All, radii 0 … 1.6 circumferences, also 0, negative, NaN) start points, the ConjugateDist values along every coincidence line, Basic itself "
+          "with the trace of its Spherical values from starts of the same queries and random ones; SetComp / RankPoint / Dist on point pairs within, at and beyond δ in L1 and in x, exact "
+          "ties in the rank, δ ∈ {14813 m, 1e-3…1e5}; the constants of 16 ellipsoids and the constructor for f ∈ [−1, 0.99]; all overloads (lat/lon/azi vs GeodesicLine, with / without "
+          "c, default p0). Tools: IntersectTool −c/−o/−n/−i, −R, −w, −E, −p and GeodesicProj −z/−c/−g, −r, −w compiled from the current tools/*.cpp. NearestNeighbor "
+          "Statistics / ResetStatistics / swap with a counting metric. Projections also through the short overloads, the inspectors and a Reset history of CassiniSoldner. "
+          "non-trivial = the model / oracle took a non-error path; distinct = distinct (op, leading arguments)"),
     tolerances={
         "NearestNeighbor (integer metrics)": "exact: index and distance lists equal to the Lean model of Search; distance list equal to the brute-force specification; TreeInv decided in Lean",
         "Initialize vs model init": "node arrays and cost equal (the pair order (distance, index) is total, so the tree does not depend on the nth_element implementation); a different tree is not an alarm if it satisfies TreeInv (counted as skipped)",
@@ -23,6 +46,10 @@ PROPS["C17"] = dict(
         "projection closures / defining geometry": "4 × documented geodesic accuracy (15 nm series for |f| ≤ 1/150, table of Geodesic.hpp beyond; GeodesicExact 40 nm), scaled by a/a_WGS84 and by the conditioning of the map (see harness/C17_proj.hpp)",
         "Intersect: point on both lines": "derived from the class's convergence tolerance d·eps^(3/4) and the geodesic accuracy, scaled with |x|,|y| in half-circuits (see harness/C17_isect.hpp)",
         "Intersect helpers": "1e-15 relative to the argument magnitudes (pure + − × /2 arithmetic)",
+        "Intersect search model (ixs_*)": "discrete outputs exact: coincidence indicator, segmode, number of points of All, NumBasic / NumChange / NumCorner / NumOverride / NumInverse increments, SetComp / RankPoint verdicts; coordinates 4e-16 relative (the model performs the same additions as the code; Intersect::Dist bit-exact); if the model of AllInt0 and the implementation differ while SetComp is not a strict weak order on the points of the query the case is skipped (std::set has no specified behaviour there) and left to the oracles all-duplicate / all-complete",
+        "overloads": "bit-identical results of the documented-equivalent overloads (Intersect: lat/lon/azi vs GeodesicLine, with / without c, default p0; projections: with / without azimuth and scale)",
+        "tools": "character-for-character equality of the tool output with the library answer formatted by Utility::str at the requested precision (input decoded with the same DMS / Utility functions)",
+        "NearestNeighbor statistics": "exact: setupcost / searchcost / mincost / maxcost / numsearches equal the counts of a counting distance functor",
         "binary layout": "exact (bytes of Save(os, true) = model; byte-level and token-level models of Load read the same tree)",
     },
     level_text=("Theorems (Lean 4, all inputs). Nearest neighbour — about the executable model of NearestNeighbor::Search / Save / Load that the driver runs against the "
@@ -41,19 +68,29 @@ PROPS["C17"] = dict(
                 "back to Direct (identity under the kernel contract Direct∘Inverse = id); gnomonic: NaN iff M12 ≤ 0, radius m12/M12, rk = M12, Newton step stationary exactly at "
                 "ρ = m/M; Cassini–Soldner: sign cases, mirror symmetry, on-meridian azimuths. Intersect helpers: fixcoincident centres on p0 and minimises the L1 distance along "
                 "the coincidence line; segmentmode = 0 iff the point lies within both segments. "
+                "Intersect search — theorems about the kernel-parametric model Model/IntersectSearch.lean (Basic's iteration skeleton, ClosestInt, NextInt, SegmentInt, AllInt0 with the skip flags, the de-duplication set and the final sort, SetComp::eq / operator() / RankPoint / Dist; start tables ix, iy and numit_ taken from the current source through Gen/IntersectC.lean), i.e. about the definitions the driver executes on the tables of Basic / Spherical / ConjugateDist values of the real object, for EVERY kernel: "
+                "setcomp_incomparable_iff_eq (incomparability of SetComp::operator() is SetComp::eq, also for the comparator before d3a4710), setcomp_strict_weak_order (the repaired comparator is irreflexive, asymmetric, transitive with transitive incomparability on every Consistent point set), setcomp_consistent_of_gapped (a checkable sufficient condition; non-vacuous: exS_gapped), setcomp_old_not_strict_weak_order (explicit 3-point gapped set on which the old comparator has P ~ Q, Q < R, R < P while the repaired one is consistent — what F58 was), setcomp_not_transitive_in_general (a 3-cycle of the REPAIRED comparator on points whose x differ by δ/2 … δ: a residual weakness outside Consistent sets), rankpoint_refines_dist; "
+                "basic_converged_unless_capped (at most numit_ kernel calls; a return before the cap means c ≠ 0 or a last step ≤ tol) and basic_can_fail_silently (a kernel exists for which Basic returns c = 0 at the cap with the next step still > tol: the mechanism of F57 as a theorem); "
+                "closest_minimal_among_visited (Closest returns fixcoincident(p0, Basic(s)) of a visited start and is within δ of minimal among the answers of all visited starts, also after the early exit; never the unset point), next_minimal_among_candidates (Next returns (∞, 0) or a candidate of a visited start and is not farther than any candidate of any visited start; candidates exclude the origin class: next_excludes_origin); "
+                "segment_segmode_zero_iff / segment_segmode_sides (for the full SegmentInt incl. the corner override: the returned segmode is 3 kx + ky of the returned point, 0 iff it lies within both segments); "
+                "all_sorted_within_maxdist (All is sorted by Dist(·, p0) and within maxdist, unconditionally), all_duplicate_free (no two listed points within δ, for kernels whose answers stay in a set on which SetComp is transitive); "
+                "completeness under the stated contract of Basic (never reports coincidence; answers within ε ≤ δ of intersections; intersections 2·_t1 apart; a start within the capture radius of an intersection converges to it): closest_complete (no intersection within 2·_d1 of p0 is closer than the result by more than ε + δ, whatever was pruned and whether or not the loop left early), next_complete (likewise for _d2 ≤ |a|₁ ≤ 3·_d2, to ε), all_complete_partial (every intersection with Dist + ε ≤ maxdist is listed: covering lemma allStarts_cover for the m×m tile grid, soundness of the pruning test and of the de-duplication) and intersect_complete_of_capture (one contract with capture radius _d3 on an object that passed the constructor check gives all three, with m = ⌈maxdistx/_d3⌉); all_starts_count (the grid has exactly m2 = m² + (m−1) mod 2 starts); non-vacuity: exContract (two intersections, nearest-point kernel). "
+                "Table certificates re-checked against the current source on every run: intersect_constants_of_source (pruning thresholds 2·t1 − d − δ, early-exit radius t1, corner radius 2·t1, maxdistx, _d1 = _t2/2, _d2 = 2·_t3/3, _d3 = _t4 − δ, the constructor check, _eps = 3ε, exponents 3/4 and 1/5), intersect_start_tables; the covering lemmas closestStarts_cover / nextStarts_cover are proved for the ix, iy tables of the current source. "
                 "Correspondence only (no theorem): that the C++ init is the modelled one (op nn_init: the tree dumped by Save equals the model's init on every sampled point set; a differing tree would be accepted if it satisfies the decided TreeInv), dist_t = double, Gnomonic/Cassini reverse, "
-                "the defining geometry of the projections (recomputed through Geodesic::Inverse/Direct), and everything about the Intersect tiling search (point on both "
-                "lines, minimality against All and an independent scan, Next incl. coincident antiparallel lines, segment indicator, All complete / sorted / duplicate-free / "
-                "monotone in the radius, coincidence flag). Partial: no theorem about Intersect::Closest/Next/Segment/All, none about the geodesic kernel itself (C01–C03)."),
-    level_note=("hand-written models (Model/VPTree.lean, Model/GeodProj.lean, Model/IntersectFix.lean); no tables to regenerate (gens = []): the tie to the source is the "
+                "the defining geometry of the projections (recomputed through Geodesic::Inverse/Direct), that the C++ searches are the modelled ones (ops ixs_*: result, c, segmode, the whole list of All and the five diagnostic counters reproduced on every sampled query), and the numeric kernels of Intersect themselves (Spherical, ConjugateDist, the constants _t1…_t5): point on both "
+                "lines, minimality against All and an independent scan, Next incl. coincident antiparallel lines, All complete / sorted / duplicate-free / "
+                "monotone in the radius, coincidence flag are oracles on the implementation. Partial: completeness of All is proved for kernels that never report coincidence (c ≠ 0: the conjugate-point loop and the erasure along the coincidence line are modelled and executed, not proved complete); that the real Basic satisfies the contract (capture radius, separation of intersections) is geometry of the ellipsoid and is not proved; none about the geodesic kernel itself (C01–C03)."),
+    level_note=("hand-written models (Model/VPTree.lean, Model/GeodProj.lean, Model/IntersectFix.lean, Model/IntersectSearch.lean); Gen/IntersectC.lean (gen_intersect: ix/iy start tables, numit_, the defining expressions of the spacings and thresholds as coefficient vectors) is regenerated from the current Intersect.cpp/.hpp on every run; otherwise the tie to the source is the "
                 "in-process correspondence run (ASan+UBSan) on the real tree dumped through Save, the kernel values of the real Geodesic object and the private helpers of "
                 "Intersect (-fno-access-control). "
-                "Open findings on the unchanged tree (known_findings.json): F57 Intersect does not recognise some exactly coincident lines (c = 0, non-converged Newton), "
-                "F59 Intersect::Next not minimal for nearly parallel lines on a prolate ellipsoid (series solver); repaired since the first build: F53 (shared children, 90dea91 — "
-                "now part of the Load model), F54, F55, F56, F58, F60"),
+                "Open finding on the unchanged tree (known_findings.json): F57 Intersect does not recognise some coincident lines — class sharpened to the decidable tags [exactly-coincident-lines] / [basic-not-converged] the harness puts on every #BAD line (mechanisms: Spherical's coincidence test below the noise of the Inverse azimuths ⇒ Basic oscillates to the iteration cap, basic_can_fail_silently; direction test to 3 eps on the coincidence line); no small safe repair (threshold variants measured). "
+                "F59 (Next not minimal on a prolate ellipsoid) was a symptom of F55 (a NaN from Geodesic::Inverse silently dropped one start of NextInt) and is repaired by 48445e6: not reproduced in 860 000 targeted queries. Repaired since the first build: F53 (shared children, 90dea91 — "
+                "now part of the Load model), F54, F55, F56, F58 (the comparator theorems above), F60"),
     technique=("Lean 4 proof about the executable model of the vantage-point-tree search (induction over fuel with ghost trees, insertion-sort / k-best algebra, omega) and over ℝ "
-               "for the projection wrappers (ring / linear_combination / Complex.arg) + exact correspondence of the model against the implementation + property-level oracles"),
+               "for the projection wrappers (ring / linear_combination / Complex.arg) and for the Intersect search (loop invariants by induction over the start list, L1 triangle inequality, covering of the L1 ball by the start grid in rotated coordinates with Int.floor, linarith) + table certificates by decide +kernel on Gen + exact correspondence of the models against the implementation + property-level oracles"),
     assumptions=["the geodesic kernel (Geodesic / GeodesicExact Inverse, Direct, Line) is trusted here (C01–C03)",
                  "std::priority_queue pops the lexicographic maximum of pair<dist_t,int> (its documented behaviour); ties in the index list are accepted if the distance lists agree",
-                 "dist_t = long long arithmetic does not overflow for the generated distances (≤ 2e10)"],
+                 "dist_t = long long arithmetic does not overflow for the generated distances (≤ 2e10)",
+                 "std::set<XPoint, SetComp> behaves as a sorted duplicate-free list when the comparator is a strict weak order on the points inserted (its documented contract); Intersect::Basic is deterministic (the kernel tables are obtained by calling it again on the same start points)",
+                 "the completeness theorems for Closest / Next / All are conditional on the stated contract of Basic (capture radius _d3, separation 2·_t1 of intersections), which is geometry of the ellipsoid and not proved here"],
 )
